@@ -798,7 +798,7 @@ func checkC14(c *Ctx, r *Report) {
 	}
 
 	fr := &Frame{Fn: ret}
-	guards := guardsOfInstr(rm)
+	guards := c.expandGuards(guardsOfInstr(rm), fr, 0)
 	r.Count("guards_examined", len(guards))
 	var gdesc []string
 	var haveDir, havePrefix, haveShape, haveAge bool
@@ -806,7 +806,11 @@ func checkC14(c *Ctx, r *Report) {
 	var prefixNode *PNode
 	pathArg := c.prov(rm.Common().Args[0], fr)
 	for _, g := range guards {
-		p := c.prov(g.Cond, fr)
+		gfr := fr
+		if g.Fr != nil {
+			gfr = g.Fr
+		}
+		p := c.prov(g.Cond, gfr)
 		gdesc = append(gdesc, fmt.Sprintf("%s=%v", p, g.Polarity))
 		e := p.eff()
 		switch {
@@ -825,7 +829,7 @@ func checkC14(c *Ctx, r *Report) {
 				prefixNode = cp.Args[0]
 			}
 		}
-		if ok, why := c.isSuffixShapeGuard(g, fr); ok {
+		if ok, why := c.isSuffixShapeGuard(g, gfr); ok {
 			haveShape = true
 			gdesc[len(gdesc)-1] += " [suffix-shape:" + why + "]"
 		}
@@ -1091,7 +1095,11 @@ func (c *Ctx) checkAge(r *Report, ret *ssa.Function, rm ssa.CallInstruction, gua
 	var seen []string
 	c.narrowAgeMul = ""
 	for _, g := range guards {
-		p := c.prov(g.Cond, fr).eff()
+		gfr := fr
+		if g.Fr != nil {
+			gfr = g.Fr
+		}
+		p := c.prov(g.Cond, gfr).eff()
 		var lhs, rhs timeLin // condition lhs < rhs
 		switch {
 		case p.isCall("(time.Time).Before"):
@@ -1158,7 +1166,11 @@ func (c *Ctx) checkAge(r *Report, ret *ssa.Function, rm ssa.CallInstruction, gua
 		return
 	}
 	for _, g := range guards {
-		if p := c.prov(g.Cond, fr).String(); strings.Contains(p, "ModTime") {
+		gfr := fr
+		if g.Fr != nil {
+			gfr = g.Fr
+		}
+		if p := c.prov(g.Cond, gfr).String(); strings.Contains(p, "ModTime") {
 			r.Undecided(key, c.instrPos(rm), "the modification time is tested in a form outside the recognised family (time.Time comparisons / durations linear in MaxAge): %s — integer arithmetic on MaxAge (e.g. in milliseconds) can overflow its int32 type and is not accepted", p)
 			return
 		}
@@ -1349,30 +1361,51 @@ func (c *Ctx) checkAsyncOptIn(r *Report, ro *Roles) {
 			}
 			n++
 			key := "C20.async-opt-in:" + fname(f)
-			// guards of the allocation, then of the closure's creation site, outwards
-			found := false
-			var at ssa.Instruction = in
-			for fn := f; at != nil && !found; {
+			// guards of the allocation; failing that, of every site where the constructing function is created,
+			// passed on or called — outwards until an `async` test is found on each way in
+			var guarded func(at ssa.Instruction, fn *ssa.Function, seen map[*ssa.Function]bool) bool
+			guarded = func(at ssa.Instruction, fn *ssa.Function, seen map[*ssa.Function]bool) bool {
 				for _, g := range guardsOfInstr(at) {
 					if g.Polarity && isAsyncAttr(g.Cond) {
-						found = true
+						return true
 					}
 				}
-				par := fn.Parent()
-				if par == nil {
-					break
+				if seen[fn] {
+					return false
 				}
-				var mk ssa.Instruction
-				eachInstr(par, func(j ssa.Instruction) {
-					// a function literal without captured variables is used as a plain function value
-					for _, op := range j.Operands(nil) {
-						if *op == ssa.Value(fn) {
-							mk = j
+				seen[fn] = true
+				var sites []ssa.Instruction
+				for _, g := range c.Funcs {
+					eachInstr(g, func(j ssa.Instruction) {
+						if ci, ok := j.(ssa.CallInstruction); ok && ci.Common().StaticCallee() == fn {
+							sites = append(sites, j)
+							return
 						}
+						for _, op := range j.Operands(nil) {
+							if *op == ssa.Value(fn) {
+								sites = append(sites, j)
+								return
+							}
+							if mc, ok := (*op).(*ssa.MakeClosure); ok && mc.Fn == ssa.Value(fn) && j != ssa.Instruction(mc) {
+								_ = mc
+							}
+						}
+						if mc, ok := j.(*ssa.MakeClosure); ok && mc.Fn == ssa.Value(fn) {
+							sites = append(sites, j)
+						}
+					})
+				}
+				if len(sites) == 0 {
+					return false
+				}
+				for _, st := range sites {
+					if !guarded(st, st.Parent(), seen) {
+						return false
 					}
-				})
-				at, fn = mk, par
+				}
+				return true
 			}
+			found := guarded(in, f, map[*ssa.Function]bool{})
 			if found {
 				r.OK(key, "the asynchronous logger is constructed only where the `async` attribute is set")
 			} else {
